@@ -217,3 +217,66 @@ func vfUpperASCII(b []byte) []byte {
 	}
 	return out
 }
+
+// VfC14_RoleAfterRefresh: the routing table is built by the real refresh from a CLUSTER NODES reply
+// with two masters that each have replicas (listed in an arbitrary order); then two or three read-only or
+// write commands for keys of the two masters are routed one after the other under a symbolic read
+// strategy and clock: every command goes to the master owning its key's slot or to one of THAT
+// master's replicas (writes: the master) - also after earlier selections for the other master.
+func VfC14_RoleAfterRefresh() {
+	strategy := redis.ReadStrategy(nd.Concrete(nd.IntRange("strategy", 0, 2)))
+	cfg := newConfig(&service.Config{})
+	cfg.ProtocolOptions = &service.Config_RedisOption{RedisOption: &protocol.RedisOption{ReadStrategy: strategy}}
+	seed := "10.0.0.9:7000"
+	u, clients := vfNewUpstream(cfg, seed)
+	kx, ky := "k596", "k10322" // slots 0 and 16383
+	lines := []string{
+		"idX 10.0.1.1:7000@17000 myself,master - 0 0 1 connected 0-8000\n",
+		"idY 10.0.1.2:7000@17000 master - 0 0 2 connected 8001-16383\n",
+		"idRX1 10.0.2.1:7000@17000 slave idX 0 0 1 connected\n",
+		"idRX2 10.0.2.2:7000@17000 slave idX 0 0 1 connected\n",
+		"idRY1 10.0.3.1:7000@17000 slave idY 0 0 2 connected\n",
+	}
+	text := ""
+	if nd.Bool("replicas-listed-first") {
+		text = lines[4] + lines[2] + lines[0] + lines[3] + lines[1]
+	} else {
+		text = lines[0] + lines[1] + lines[2] + lines[3] + lines[4]
+	}
+	done := make(chan error, 1)
+	go func() { done <- u.doSlotsRefresh() }()
+	nd.Quiesce()
+	rq := vfTake(clients[seed])
+	nd.Assert(rq != nil, "the refresh asks CLUSTER NODES")
+	if rq == nil {
+		return
+	}
+	rq.SetResponse(newBulkString(text))
+	nd.Quiesce()
+	nd.PanicLabel("role-after-refresh")
+	group := map[string][]string{
+		kx: {"10.0.1.1:7000", "10.0.2.1:7000", "10.0.2.2:7000"},
+		ky: {"10.0.1.2:7000", "10.0.3.1:7000"},
+	}
+	for i := 0; i < nd.Param("selections", 3); i++ {
+		key := []string{kx, ky}[nd.Concrete(nd.Choice("key", 2))]
+		cmd := []string{"get", "set"}[nd.Concrete(nd.Choice("cmd", 2))]
+		addr, err := u.chooseHost([]byte(key), newSimpleRequest(newStringArray(cmd, key)))
+		nd.Assert(err == nil, "a key of a loaded slot is routed")
+		g := group[key]
+		in := false
+		for _, a := range g {
+			if a == addr {
+				in = true
+			}
+		}
+		nd.Assert(in, "a command goes to the master owning its key's slot or to one of that master's replicas, never to another master or its replicas")
+		if cmd == "set" || strategy == redis.ReadStrategy_MASTER {
+			nd.Assert(addr == g[0], "writes, and reads under strategy MASTER, go to the owning master")
+		}
+		if cmd == "get" && strategy == redis.ReadStrategy_REPLICA {
+			nd.Assert(addr != g[0], "strategy REPLICA reads from a replica when the master has one")
+		}
+	}
+	nd.Cover("routed-thrice")
+}
